@@ -27,6 +27,7 @@ import (
 	"net"
 	"os"
 	"path/filepath"
+	"regexp"
 	"runtime"
 	"sort"
 	"strings"
@@ -288,7 +289,11 @@ func getFixture() (*fixture, error) {
 				return fakemysql.Reply{Unhandled: true}
 			}
 		}
-		ns := proxyfix.BaseNamespace(f.ns, f.cl.SliceConfigs(specs), []*models.User{
+		slices := f.cl.SliceConfigs(specs)
+		for _, sl := range slices {
+			sl.HandshakeTimeout = 30000 // ms; the default of 500 ms is easily missed on a loaded machine
+		}
+		ns := proxyfix.BaseNamespace(f.ns, slices, []*models.User{
 			{UserName: f.fuzzUser, Password: password, RWFlag: 2, RWSplit: 0},
 			{UserName: f.okUser, Password: password, RWFlag: 2, RWSplit: 0}})
 		ns.SupportMultiQuery = true
@@ -394,7 +399,13 @@ func writeLastInput(sub string, c c38Case) {
 // one fuzzed connection
 // ---------------------------------------------------------------------------
 
-const closeBudget = 10 * time.Second
+const (
+	closeBudget   = 20 * time.Second
+	quiesceBudget = 30 * time.Second
+)
+
+// transportRe: error texts that speak of the proxy's path to its backend, not of the statement
+var transportRe = regexp.MustCompile(`(?i)time ?out|timed out|deadline|connection|broken pipe|\bEOF\b|reset by peer|create resource|bad conn|invalid conn|i/o|\bpool\b|no alive|backendconn|get conn|unavailable|refused`)
 
 type connOutcome struct {
 	closed    bool // the proxy closed the connection within the budget after the client closed its side
@@ -481,54 +492,6 @@ func (f *fixture) runFuzzConn(c c38Case, budget time.Duration) (res connOutcome)
 	return
 }
 
-// ---------------------------------------------------------------------------
-// classifier of finding C38-F1 (parser.SplitStatementToPieces never returns)
-// ---------------------------------------------------------------------------
-
-// noTokenByte: bytes that start no token of Gaea's SQL scanner (found by probing the scanner byte by byte).
-func noTokenByte(b byte) bool {
-	return b <= 0x08 || (b >= 0x0e && b <= 0x1f) || b == 0x7f || b == '[' || b == ']'
-}
-
-// splitterLoops reports whether a statement text is of the shape that makes the multi-statement splitter spin:
-// a semicolon that is not the end of the text, and a byte that starts no token outside strings, quoted
-// identifiers and comments.
-func splitterLoops(text []byte) bool {
-	t := bytes.TrimRight(text, ";")
-	if bytes.IndexByte(t, ';') < 0 {
-		return false
-	}
-	for i := 0; i < len(t); i++ {
-		ch := t[i]
-		switch {
-		case ch == '\'' || ch == '"' || ch == '`':
-			j := i + 1
-			for j < len(t) && t[j] != ch {
-				if t[j] == '\\' && ch != '`' {
-					j++
-				}
-				j++
-			}
-			i = j
-		case ch == '/' && i+1 < len(t) && t[i+1] == '*':
-			j := bytes.Index(t[i+2:], []byte("*/"))
-			if j < 0 {
-				return false
-			}
-			i += 2 + j + 1
-		case ch == '#', ch == '-' && i+2 < len(t) && t[i+1] == '-' && (t[i+2] == ' ' || t[i+2] == '\t' || t[i+2] == '\n'):
-			j := bytes.IndexByte(t[i:], '\n')
-			if j < 0 {
-				return false
-			}
-			i += j
-		case noTokenByte(ch):
-			return true
-		}
-	}
-	return false
-}
-
 // cmdWire is the byte stream of the command packets as written to the socket.
 func (c c38Case) cmdWire() []byte {
 	var wire []byte
@@ -536,31 +499,6 @@ func (c c38Case) cmdWire() []byte {
 		wire = append(wire, frame(c.Cmds[i].payload(), 0, c.Cmds[i].Frame)...)
 	}
 	return wire
-}
-
-// matchesF1 cuts the command byte stream into packets the way the proxy does (announced lengths, so a
-// wrong length moves the boundaries) and reports whether a COM_QUERY / COM_STMT_PREPARE text it will see has
-// the shape of C38-F1.
-func (c c38Case) matchesF1() bool {
-	if c.Handshake != nil && (c.Handshake.Caps&capMultiStmts == 0 || c.Handshake.Frame.Mode != "") {
-		return false
-	}
-	w := c.cmdWire()
-	for len(w) >= 4 {
-		n := int(w[0]) | int(w[1])<<8 | int(w[2])<<16
-		if n == 0 || w[3] != 0 || n == 0xffffff || len(w) < 4+n {
-			return false // empty packet, wrong sequence id, multi-frame or incomplete packet: the session ends here
-		}
-		p := w[4 : 4+n]
-		if (p[0] == comQuery || p[0] == comStmtPrepare) && splitterLoops(p[1:]) {
-			return true
-		}
-		if p[0] == comQuit {
-			return false
-		}
-		w = w[4+n:]
-	}
-	return false
 }
 
 // ---------------------------------------------------------------------------
@@ -616,6 +554,12 @@ func checkC38Sub(sub string, c c38Case) (o pbt.Outcome) {
 			name = "unknown"
 		}
 		o.Labels = append(o.Labels, "cmd_"+name)
+		if (cm.Cmd == comQuery || cm.Cmd == comStmtPrepare) && hasOpenEnded(c38Case{Cmds: []cmdInput{*cm}}) {
+			o.Labels = append(o.Labels, "text_open_ended_"+name)
+			if cm.Cmd == comStmtPrepare && i+1 < len(c.Cmds) && c.Cmds[i+1].Cmd == comStmtExecute {
+				o.Labels = append(o.Labels, "open_ended_prepare_then_execute")
+			}
+		}
 		if cm.Trunc >= 0 {
 			o.Labels = append(o.Labels, "cmd_truncated")
 		}
@@ -638,10 +582,24 @@ func checkC38Sub(sub string, c c38Case) (o pbt.Outcome) {
 	}
 	o.NonTrivial = mutated
 
-	// healthy session, opened and used before the input
-	healthy, err := rawclient.Dial(f.p.Addr, rawclient.Options{User: f.okUser, Password: password, DB: "db", Timeout: 20 * time.Second})
+	// healthy session, opened and used before the input. On a loaded machine the proxy may fail to get a backend
+	// connection in time (2 s pool wait) and answer with a transport error: such an answer is retried, only a
+	// persistent failure or a wrong answer counts
+	dialOK := func() (*rawclient.Conn, error) {
+		var cli *rawclient.Conn
+		var err error
+		for _, pause := range []time.Duration{0, 300 * time.Millisecond, time.Second, 3 * time.Second} {
+			time.Sleep(pause)
+			cli, err = rawclient.Dial(f.p.Addr, rawclient.Options{User: f.okUser, Password: password, DB: "db", Timeout: 60 * time.Second})
+			if err == nil {
+				return cli, nil
+			}
+		}
+		return nil, err
+	}
+	healthy, err := dialOK()
 	if err != nil {
-		o.Violation = fmt.Sprintf("a well-formed session cannot be opened any more (damage from an earlier input of this run?): %v", err)
+		o.Violation = fmt.Sprintf("a well-formed session cannot be opened any more, 4 attempts (damage from an earlier input of this run?): %v", err)
 		return
 	}
 	defer healthy.Close()
@@ -650,32 +608,49 @@ func checkC38Sub(sub string, c c38Case) (o pbt.Outcome) {
 		o.Violation = fmt.Sprintf("healthy session: prepare failed before the input: %v %v", err, perr)
 		return
 	}
-	expectRow := func(r *rawclient.Result, err error, want string, what string) string {
-		if err != nil {
-			return fmt.Sprintf("%s: %v", what, err)
-		}
-		if r.Err != nil {
-			return fmt.Sprintf("%s: %v", what, r.Err)
-		}
-		var got string
-		switch {
-		case len(r.Rows) == 1 && len(r.Rows[0]) == 1:
-			got = string(r.Rows[0][0])
-		case len(r.RawRows) == 1 && len(r.RawRows[0]) >= 3:
-			// binary row: 0x00, null bitmap (1 byte for one column), length-encoded string
-			rr := r.RawRows[0]
-			if int(rr[2]) == len(rr)-3 {
-				got = string(rr[3:])
+	tagSeq := 0
+	// ask runs one tagged statement (run gets the tag) and checks that exactly the tagged row comes back
+	ask := func(what string, run func(tag string) (*rawclient.Result, error)) string {
+		var last string
+		for _, pause := range []time.Duration{0, 300 * time.Millisecond, time.Second, 3 * time.Second} {
+			time.Sleep(pause)
+			tagSeq++
+			want := fmt.Sprintf("c38h%dt%d", hid, tagSeq)
+			r, err := run(want)
+			if err != nil {
+				return fmt.Sprintf("%s: %v", what, err) // the client's own connection failed or timed out (60 s)
 			}
+			if r.Err != nil {
+				last = fmt.Sprintf("%s: %v", what, r.Err)
+				if transportRe.MatchString(r.Err.Message) {
+					continue
+				}
+				return last
+			}
+			var got string
+			switch {
+			case len(r.Rows) == 1 && len(r.Rows[0]) == 1:
+				got = string(r.Rows[0][0])
+			case len(r.RawRows) == 1 && len(r.RawRows[0]) >= 3:
+				// binary row: 0x00, null bitmap (1 byte for one column), length-encoded string
+				rr := r.RawRows[0]
+				if int(rr[2]) == len(rr)-3 {
+					got = string(rr[3:])
+				}
+			}
+			if got != want {
+				return fmt.Sprintf("%s: answer %q (rows %d), want %q", what, got, len(r.Rows)+len(r.RawRows), want)
+			}
+			return ""
 		}
-		if got != want {
-			return fmt.Sprintf("%s: answer %q (rows %d), want %q", what, got, len(r.Rows)+len(r.RawRows), want)
-		}
-		return ""
+		return last + " (4 attempts)"
 	}
-	tagA := fmt.Sprintf("c38h%da", hid)
-	r, err := healthy.Exec("select name from t_ok where name = '" + tagA + "'")
-	if msg := expectRow(r, err, tagA, "healthy session, query before the input"); msg != "" {
+	textQuery := func(cli *rawclient.Conn) func(string) (*rawclient.Result, error) {
+		return func(tag string) (*rawclient.Result, error) {
+			return cli.Exec("select name from t_ok where name = '" + tag + "'")
+		}
+	}
+	if msg := ask("healthy session, query before the input", textQuery(healthy)); msg != "" {
 		o.Violation = msg + " (damage from an earlier input of this run?)"
 		return
 	}
@@ -693,40 +668,31 @@ func checkC38Sub(sub string, c c38Case) (o pbt.Outcome) {
 	writeLastInput(sub, c)
 
 	// the input; a connection that is not closed within the budget must reproduce three times
-	// (inputs of the shape of finding C38-F1 leave a spinning goroutine behind at every attempt:
-	// they get one attempt and a short budget)
-	budget, attempts := closeBudget, 3
-	f1Shape := c.matchesF1()
-	if f1Shape {
-		budget, attempts = 3*time.Second, 1
-		o.Labels = append(o.Labels, "f1_shape")
+	const attempts = 3
+	res := f.runFuzzConn(c, closeBudget)
+	for i := 0; res.fixture != "" && i < 2; i++ {
+		time.Sleep(time.Second)
+		res = f.runFuzzConn(c, closeBudget)
 	}
-	res := f.runFuzzConn(c, budget)
 	if res.fixture != "" {
-		o.Violation = "fuzz connection could not be set up: " + res.fixture
+		// the well-formed part of the fuzz connection could not be set up (dial or valid handshake timed out):
+		// whether the proxy is damaged is decided by the healthy-session checks of this and the following cases
+		o = pbt.Outcome{Skip: "inconclusive: fuzz connection could not be set up"}
 		return
 	}
 	if !res.closed {
 		hangs := 1
 		for i := 1; i < attempts; i++ {
-			if r2 := f.runFuzzConn(c, budget); r2.fixture == "" && !r2.closed {
+			if r2 := f.runFuzzConn(c, closeBudget); r2.fixture == "" && !r2.closed {
 				hangs++
 			}
 		}
 		if hangs == attempts {
-			detail := fmt.Sprintf("the proxy did not close the connection within %v after the client closed its side (%d of %d attempts); received %d bytes", budget, hangs, attempts, len(res.received))
-			if f1Shape {
-				o.Known, o.KnownWhat = "C38-F1", detail
-				// the rest of the oracle (other sessions unharmed) still applies; the spinning goroutine is part of the finding
-				g0 = -1
-			} else {
-				o.Violation = detail
-				return
-			}
-		} else {
-			o.Skip = "connection not closed within the budget, not reproducible"
+			o.Violation = fmt.Sprintf("the proxy did not close the connection within %v after the client closed its side (%d of %d attempts); received %d bytes", closeBudget, hangs, attempts, len(res.received))
 			return
 		}
+		o = pbt.Outcome{Skip: "connection not closed within the budget, not reproducible"}
+		return
 	}
 	if res.errPacket {
 		o.Labels = append(o.Labels, "outcome_error_packet")
@@ -735,45 +701,42 @@ func checkC38Sub(sub string, c c38Case) (o pbt.Outcome) {
 	}
 
 	// the healthy session still answers correctly
-	tagB := fmt.Sprintf("c38h%db", hid)
-	r, err = healthy.Exec("select name from t_ok where name = '" + tagB + "'")
-	if msg := expectRow(r, err, tagB, "healthy session opened before the input, text query after it"); msg != "" {
+	if msg := ask("healthy session opened before the input, text query after it", textQuery(healthy)); msg != "" {
 		o.Violation = msg
 		return
 	}
-	tagC := fmt.Sprintf("c38h%dc", hid)
-	r, err = healthy.Execute(st, []rawclient.Param{{Type: 253, Value: rawclient.LenEncBytes([]byte(tagC))}})
-	if msg := expectRow(r, err, tagC, "healthy session opened before the input, prepared statement executed after it"); msg != "" {
+	if msg := ask("healthy session opened before the input, prepared statement executed after it", func(tag string) (*rawclient.Result, error) {
+		return healthy.Execute(st, []rawclient.Param{{Type: 253, Value: rawclient.LenEncBytes([]byte(tag))}})
+	}); msg != "" {
 		o.Violation = msg
 		return
 	}
 	// a new session can be opened
-	fresh, err := rawclient.Dial(f.p.Addr, rawclient.Options{User: f.okUser, Password: password, DB: "db", Timeout: 20 * time.Second})
+	fresh, err := dialOK()
 	if err != nil {
-		o.Violation = fmt.Sprintf("no new session can be opened after the input: %v", err)
+		o.Violation = fmt.Sprintf("no new session can be opened after the input (4 attempts): %v", err)
 		return
 	}
-	tagD := fmt.Sprintf("c38h%dd", hid)
-	r, err = fresh.Exec("select name from t_ok where name = '" + tagD + "'")
+	msg := ask("new session opened after the input", textQuery(fresh))
 	fresh.Close()
-	if msg := expectRow(r, err, tagD, "new session opened after the input"); msg != "" {
+	if msg != "" {
 		o.Violation = msg
 		return
 	}
 
 	// quiescence: pool slots and goroutines back to the baseline
-	deadline := time.Now().Add(8 * time.Second)
+	deadline := time.Now().Add(quiesceBudget)
 	for {
 		inUse := f.poolInUse()
 		g, sig := proxyGoroutines()
-		if inUse <= inUse0 && (g <= g0 || g0 < 0) {
+		if inUse <= inUse0 && g <= g0 {
 			break
 		}
 		if time.Now().After(deadline) {
-			if g > g0 && g0 >= 0 {
-				o.Violation = fmt.Sprintf("goroutines of client sessions (Server.onConn and workers started by session code) did not return to the baseline: %d before the input, %d more than 8 s after it (%s)", g0, g, diffSigs(sig0, sig))
+			if g > g0 {
+				o.Violation = fmt.Sprintf("goroutines of client sessions (Server.onConn and workers started by session code) did not return to the baseline: %d before the input, %d more than %v after it (%s)", g0, g, quiesceBudget, diffSigs(sig0, sig))
 			} else {
-				o.Violation = fmt.Sprintf("backend connections taken from the pool did not return: %d in use before the input, %d more than 8 s after it", inUse0, inUse)
+				o.Violation = fmt.Sprintf("backend connections taken from the pool did not return: %d in use before the input, %d more than %v after it", inUse0, inUse, quiesceBudget)
 			}
 			return
 		}
@@ -794,6 +757,22 @@ func TestC38Command(t *testing.T) {
 		Floor: 0.5}, func(t *rapid.T) c38Case { return genCase(rapidSrc{t}, false) }, func(c c38Case) pbt.Outcome { return checkC38Sub("command", c) })
 }
 
+// hasOpenEnded: some COM_QUERY / COM_STMT_PREPARE text of the case ends inside a lexical construct.
+func hasOpenEnded(c c38Case) bool {
+	for i := range c.Cmds {
+		cm := &c.Cmds[i]
+		if (cm.Cmd == comQuery || cm.Cmd == comStmtPrepare) && cm.Trunc < 0 && cm.Frame.Mode == "" {
+			t := bytes.TrimRight(cm.Text, ";")
+			for _, e := range openEndings {
+				if len(t) >= len(e) && bytes.HasSuffix(t, []byte(e)) && len(e) > 1 && (bytes.Contains(t, []byte("select")) || bytes.Contains(t, []byte("insert")) || bytes.Contains(t, []byte("update")) || len(t) == len(e)) {
+					return true
+				}
+			}
+		}
+	}
+	return false
+}
+
 // FuzzC38 is the native coverage-guided variant (thorough tier): the fuzz bytes
 // are decoded into the same structured input by the same generator.
 func FuzzC38(f *testing.F) {
@@ -804,15 +783,33 @@ func FuzzC38(f *testing.F) {
 	f.Add([]byte{1, 0, 0, 0, 0, 0, 99, 0, 0, 0, 0, 0, 0, 0, 0, 0, 0, 0, 0, 0, 0, 0, 0, 0, 0, 0, 99, 6})
 	f.Add(bytes.Repeat([]byte{0xff}, 64))
 	f.Add(bytes.Repeat([]byte{0x63}, 48))
+	// seeds whose statement texts end inside a comment, string, quoted identifier or escape (COM_QUERY, and
+	// COM_STMT_PREPARE followed by its EXECUTE): found with the structured generator, recorded as fuzz bytes
+	added := 0
+	for seed := uint64(1); seed < 4000 && added < 32; seed++ {
+		r := &recSrc{x: seed * 0x9e3779b97f4a7c15}
+		phase := r.pick("phase", 2) == 1
+		c := genCase(r, phase)
+		if phase || !hasOpenEnded(c) {
+			continue
+		}
+		// the recording must decode to the same case
+		d := &byteSrc{b: r.rec}
+		back := genCase(d, d.pick("phase", 2) == 1)
+		bj, _ := json.Marshal(back)
+		cj, _ := json.Marshal(c)
+		if !bytes.Equal(bj, cj) {
+			continue
+		}
+		f.Add(r.rec)
+		added++
+	}
 	f.Fuzz(func(t *testing.T, data []byte) {
 		if len(data) > 4096 {
 			t.Skip()
 		}
 		s := &byteSrc{b: data}
 		c := genCase(s, s.pick("phase", 2) == 1)
-		if c.matchesF1() {
-			t.Skip() // known finding C38-F1: every such input leaves a spinning goroutine in the worker
-		}
 		o := checkC38(c)
 		if o.Violation != "" && o.Known == "" {
 			cj, _ := json.Marshal(c)
